@@ -78,7 +78,7 @@ def run_case(case):
     with rfharness.scratch("c13") as top:
         md = os.path.join(top, "md")
         os.makedirs(md)
-        w = drf.DigitalMetadataWriter(md, S, C, n, d, prefix)
+        w = M.open_writer(md, S, C, n, d, prefix, case.get("ptype", "int"))
         expected = set()
         batch = case.get("batch", 0)
         if batch == 0 or len(ks) == 1:
